@@ -1069,6 +1069,63 @@ func jsonPath(msg json.RawMessage, p string) json.Marshaler {
 	}
 }
 
+// typedJsonPath works like jsonPath, except that it uses the type of the
+// value to tell typed maps, which the path projects through like it does
+// through arrays, from structs, where the next path element is a member name.
+//
+// If the type is unknown or the value does not match it, it falls back to
+// jsonPath.
+func typedJsonPath(msg json.RawMessage, p string,
+	t syntax.Type, lookup *syntax.TypeLookup) json.Marshaler {
+	if p == "" {
+		return msg
+	}
+	msg = json.RawMessage(bytes.TrimSpace(msg))
+	if len(msg) == 0 || bytes.Equal(msg, nullBytes) {
+		return msg
+	}
+	switch t := t.(type) {
+	case *syntax.ArrayType:
+		var arr []json.RawMessage
+		if msg[0] != '[' || json.Unmarshal(msg, &arr) != nil {
+			return jsonPath(msg, p)
+		}
+		et := lookup.GetArray(t, -1)
+		result := make(marshallerArray, len(arr))
+		for i, v := range arr {
+			result[i] = typedJsonPath(v, p, et, lookup)
+		}
+		return result
+	case *syntax.TypedMapType:
+		var m LazyArgumentMap
+		if msg[0] != '{' || json.Unmarshal(msg, &m) != nil {
+			return jsonPath(msg, p)
+		}
+		result := make(marshallerArray, 0, len(m))
+		for _, v := range m {
+			result = append(result, typedJsonPath(v, p, t.Elem, lookup))
+		}
+		return result
+	case *syntax.StructType:
+		var m LazyArgumentMap
+		if msg[0] != '{' || json.Unmarshal(msg, &m) != nil {
+			return jsonPath(msg, p)
+		}
+		key, rest := p, ""
+		if i := strings.IndexRune(p, '.'); i >= 0 {
+			key, rest = p[:i], p[i+1:]
+		}
+		if member := t.Table[key]; member != nil {
+			if mt := lookup.Get(member.Tname); mt != nil {
+				return typedJsonPath(m[key], rest, mt, lookup)
+			}
+		}
+		return m.jsonPath(p)
+	default:
+		return jsonPath(msg, p)
+	}
+}
+
 func (args LazyArgumentMap) filter(t syntax.Type,
 	lookup *syntax.TypeLookup) (json.Marshaler, error) {
 	if !t.CanFilter() {
